@@ -611,3 +611,5 @@ MANIFEST = {
     'technique': 'interprocedural exception-aware taint analysis to level-classified logging sinks',
     'design_ref': 'DESIGN.md 3/C20',
 }
+MANIFEST['note'] += (' Also decided here (necessary conditions shared between properties or added after the independent '
+                     'change rounds, DESIGN.md 8.7): operations that raise with a secret operand (KeyError of a lookup, failing conversions) as taint sources, scoped by local handlers.')
